@@ -269,8 +269,9 @@ fn rand_sp(rng: &mut StdRng, n: usize, nested: bool) -> Value {
         12 => 4,
         13 => 5,
         14 => 6,
-        15 | 16 if nested => 7,
-        17 if nested => 8,
+        15 if nested => 7,
+        16 if nested => 8,
+        17 if nested => [9, 10, 11, 12][rng.gen_range(0..4)],
         _ => 0,
     };
     json!({"t": t, "w": w})
